@@ -650,6 +650,33 @@ Fixpoint collect_items (st : store) (ps : list ptr) (acc : list (rkey * node)) :
   | p :: r => let* n := deref_r st p in collect_items st r (add_child acc (key_of st p) n)
   end.
 
+(* loop over pointers with an accumulator, threading the store *)
+Fixpoint iter {A} (step : ptr -> A -> store -> res (A * store)) (l : list ptr) (a : A) (st : store) : res (A * store) :=
+  match l with
+  | [] => Ok (a, st)
+  | p :: r => let* o := step p a st in iter step r (fst o) (snd o)
+  end.
+
+(* text of the first result used as a grouping / uniqueness key *)
+Definition key_text (st : store) (ps : list ptr) (strict : bool) : res str :=
+  match ps with
+  | [] => Ok [110; 117; 108; 108]
+  | q :: _ => let* kn := deref_r st q in
+              match kn with Scalar _ v => Ok v | _ => if strict then Unsup else Ok [] end
+  end.
+
+Fixpoint group_insert (kv : str) (p : ptr) (gs : list (str * list ptr)) : list (str * list ptr) :=
+  match gs with
+  | [] => [(kv, [p])]
+  | (k, l) :: gr => if str_eqb k kv then (k, l ++ [p]) :: gr else (k, l) :: group_insert kv p gr
+  end.
+
+Fixpoint build_groups (st : store) (l : list (str * list ptr)) (acc : list node) : res (list node) :=
+  match l with
+  | [] => Ok acc
+  | (_, ps) :: gr => let* items := collect_items st ps [] in build_groups st gr (acc ++ [Seq items])
+  end.
+
 (* DontAutoCreate flag of the Context a handler *returns* (handlers that run
    their operands on context.ReadOnlyClone() hand that clone's flag back);
    it matters where the returned Context itself is traversed: l[idx], l[a:b] *)
@@ -908,22 +935,13 @@ Fixpoint eval (fuel : nat) (e : expr) (ro : bool) (vs : vars) (ctx : list ptr) (
                 let* n := deref_r st0 c in
                 match n with
                 | Seq _ =>
-                    let* r :=
-                      (fix go (ps : list ptr) (seen : list str) (acc : list ptr) (st1 : store)
-                         : res (list ptr * store) :=
-                         match ps with
-                         | p :: pr =>
-                             let* o := ev e1 true vs [p] st1 in
-                             let* kv := match fst o with
-                                        | [] => Ok [110; 117; 108; 108]
-                                        | q :: _ => let* kn := deref_r (snd o) q in
-                                                    match kn with Scalar _ v => Ok v | _ => Unsup end
-                                        end in
-                             if existsb (str_eqb kv) seen then go pr seen acc (snd o)
-                             else go pr (kv :: seen) (acc ++ [p]) (snd o)
-                         | [] => Ok (acc, st1)
-                         end) (child_ptrs c n) [] [] st0 in
-                    let* items := collect_items (snd r) (fst r) [] in
+                    let* r := iter (fun p (a : list str * list ptr) st1 =>
+                                      let* o := ev e1 true vs [p] st1 in
+                                      let* kv := key_text (snd o) (fst o) true in
+                                      if existsb (str_eqb kv) (fst a) then Ok (a, snd o)
+                                      else Ok ((kv :: fst a, snd a ++ [p]), snd o))
+                                   (child_ptrs c n) ([], []) st0 in
+                    let* items := collect_items (snd r) (snd (fst r)) [] in
                     one (alloc_repl (snd r) c (Seq items))
                 | _ => Err
                 end) ctx st
@@ -932,34 +950,13 @@ Fixpoint eval (fuel : nat) (e : expr) (ro : bool) (vs : vars) (ctx : list ptr) (
                 let* n := deref_r st0 c in
                 match n with
                 | Seq _ =>
-                    let* r :=
-                      (fix go (ps : list ptr) (groups : list (str * list ptr)) (st1 : store)
-                         : res (list (str * list ptr) * store) :=
-                         match ps with
-                         | p :: pr =>
-                             let* o := ev e1 true vs [p] st1 in
-                             let* kv := match fst o with
-                                        | [] => Ok [110; 117; 108; 108]
-                                        | q :: _ => let* kn := deref_r (snd o) q in
-                                                    match kn with Scalar _ v => Ok v | _ => Ok [] end
-                                        end in
-                             let groups' :=
-                               (fix ins (gs : list (str * list ptr)) : list (str * list ptr) :=
-                                  match gs with
-                                  | [] => [(kv, [p])]
-                                  | (k, l) :: gr => if str_eqb k kv then (k, l ++ [p]) :: gr else (k, l) :: ins gr
-                                  end) groups in
-                             go pr groups' (snd o)
-                         | [] => Ok (groups, st1)
-                         end) (child_ptrs c n) [] st0 in
-                    let st2 := snd r in
-                    let* gs :=
-                      (fix build (l : list (str * list ptr)) (acc : list node) : res (list node) :=
-                         match l with
-                         | [] => Ok acc
-                         | (_, ps) :: gr => let* items := collect_items st2 ps [] in build gr (acc ++ [Seq items])
-                         end) (fst r) [] in
-                    one (alloc_repl st2 c (Seq (renumber_from 0 gs)))
+                    let* r := iter (fun p (groups : list (str * list ptr)) st1 =>
+                                      let* o := ev e1 true vs [p] st1 in
+                                      let* kv := key_text (snd o) (fst o) false in
+                                      Ok (group_insert kv p groups, snd o))
+                                   (child_ptrs c n) [] st0 in
+                    let* gs := build_groups (snd r) (fst r) [] in
+                    one (alloc_repl (snd r) c (Seq (renumber_from 0 gs)))
                 | _ => Err
                 end) ctx st
     | EFlatten depth =>
@@ -985,20 +982,16 @@ Fixpoint eval (fuel : nat) (e : expr) (ro : bool) (vs : vars) (ctx : list ptr) (
         each (fun c st0 =>
                 let* n := deref_r st0 c in
                 match n with
-                | Seq items =>
-                    let* r :=
-                      (fix go (ps : list ptr) (st1 : store) : res (bool * store) :=
-                         match ps with
-                         | [] => Ok (false, st1)
-                         | p :: pr =>
-                             let* o := ev e1 true vs [p] st1 in
-                             match fst o with
-                             | [] => go pr (snd o)
-                             | q :: _ =>
-                                 let* qn := deref_r (snd o) q in
-                                 if Bool.eqb (truthy qn) want then Ok (true, snd o) else go pr (snd o)
-                             end
-                         end) (child_ptrs c n) st0 in
+                | Seq _ =>
+                    (* findBoolean stops at the first element whose first result has the wanted truth value *)
+                    let* r := iter (fun p (found : bool) st1 =>
+                                      if found then Ok (true, st1) else
+                                      let* o := ev e1 true vs [p] st1 in
+                                      match fst o with
+                                      | [] => Ok (false, snd o)
+                                      | q :: _ => let* qn := deref_r (snd o) q in Ok (Bool.eqb (truthy qn) want, snd o)
+                                      end)
+                                   (child_ptrs c n) false st0 in
                     mk_bool (snd r) (Some c) (if want then fst r else negb (fst r))
                 | _ => Err
                 end) ctx st
@@ -1022,35 +1015,25 @@ Fixpoint eval (fuel : nat) (e : expr) (ro : bool) (vs : vars) (ctx : list ptr) (
     | EReduce src x init body =>
         let* oa := ev src ro vs ctx st in
         let* oi := ev init ro vs ctx (snd oa) in
-        (fix go (items : list ptr) (acc : list ptr) (st0 : store) : res out :=
-           match items with
-           | [] => Ok (acc, st0)
-           | it :: r =>
-               let* o := ev body (ret_ro init ro) ((x, [it]) :: vs) acc st0 in
-               go r (fst o) (snd o)
-           end) (fst oa) (fst oi) (snd oi)
+        iter (fun it (acc : list ptr) st0 => ev body (ret_ro init ro) ((x, [it]) :: vs) acc st0)
+             (fst oa) (fst oi) (snd oi)
     | ESortBy e1 =>
         each (fun c st0 =>
                 let* n := deref_r st0 c in
                 match n with
                 | Seq _ =>
-                    let* r :=
-                      (fix go (ps : list ptr) (acc : list ((N * Z * str) * ptr)) (st1 : store)
-                         : res (list ((N * Z * str) * ptr) * store) :=
-                         match ps with
-                         | p :: pr =>
-                             let* o := ev e1 true vs [p] st1 in
-                             (* Less compares the result lists: no result sorts before any result *)
-                             let* rk := match fst o with
-                                        | [q] => let* kn := deref_r (snd o) q in of_option (sort_rank kn)
-                                        | [] => Ok (0, 0%Z, [])
-                                        | _ => Unsup      (* multi-key comparison *)
-                                        end in
-                             go pr (acc ++ [(rk, p)]) (snd o)
-                         | [] => Ok (acc, st1)
-                         end) (child_ptrs c n) [] st0 in
+                    let* r := iter (fun p (acc : list ((N * Z * str) * ptr)) st1 =>
+                                      let* o := ev e1 true vs [p] st1 in
+                                      (* Less compares the result lists: no result sorts before any result *)
+                                      let* rk := match fst o with
+                                                 | [q] => let* kn := deref_r (snd o) q in of_option (sort_rank kn)
+                                                 | [] => Ok (0, 0%Z, [])
+                                                 | _ => Unsup      (* multi-key comparison *)
+                                                 end in
+                                      Ok (acc ++ [(rk, p)], snd o))
+                                   (child_ptrs c n) [] st0 in
                     (* ints and strings are compared by text when mixed: outside the fragment *)
-                    let has c := existsb (fun a => (fst (fst (fst a))) =? c) (fst r) in
+                    let has k := existsb (fun a => (fst (fst (fst a))) =? k) (fst r) in
                     if has 3 && has 4 then Unsup else
                     let sorted := stable_sort (fun a b => rank_leb (fst a) (fst b)) (fst r) in
                     let* items := collect_items (snd r) (List.map snd sorted) [] in
